@@ -30,6 +30,7 @@ use lightning_signer::util::test_utils::{
     channel_commitment, counterparty_sign_holder_commitment, TestChannelContext,
 };
 use serde_json::{json, Map, Value};
+use vls_protocol_signer::approver::{Approve, NegativeApprover, PositiveApprover};
 use vls_verif_harness::*;
 
 /// one abstract amount unit, in satoshi
@@ -235,12 +236,17 @@ impl World {
                 let n = self.estate(&cc.channel_id).next_holder_commit_num;
                 node.with_channel(&cc.channel_id, |chan| chan.revoke_previous_holder_commitment(n)).map(|_| json!({}))
             }
-            "AddInvoice" => node
-                .add_invoice(self.make_invoice(r["h"].as_str().unwrap(), r["a"].as_u64().unwrap()))
+            // approvals go through vls-protocol-signer's approver (has_payment shortcut, approve, add)
+            "AddInvoice" => PositiveApprover()
+                .handle_proposed_invoice(node, self.make_invoice(r["h"].as_str().unwrap(), r["a"].as_u64().unwrap()))
+                .map(|b| json!({"flag": if b { 1 } else { 0 }})),
+            "DeclineInvoice" => NegativeApprover()
+                .handle_proposed_invoice(node, self.make_invoice(r["h"].as_str().unwrap(), r["a"].as_u64().unwrap()))
                 .map(|b| json!({"flag": if b { 1 } else { 0 }})),
             "AddKeysend" => {
                 let payee = PublicKey::from_slice(&peer_id()).unwrap();
-                node.add_keysend(payee, payment_hash(r["h"].as_str().unwrap()), r["a"].as_u64().unwrap() * UNIT * 1000)
+                PositiveApprover()
+                    .handle_proposed_keysend(node, payee, payment_hash(r["h"].as_str().unwrap()), r["a"].as_u64().unwrap() * UNIT * 1000)
                     .map(|b| json!({"flag": if b { 1 } else { 0 }}))
             }
             "Fulfill" => {
@@ -619,52 +625,11 @@ fn run_seqs() {
     println!("{}", json!({"sequences": nseq, "steps": n}));
 }
 
-fn bench() {
-    let alpha: Value = serde_json::from_str(&std::fs::read_to_string(arg("alphabet").unwrap()).unwrap()).unwrap();
-    let cfg = read_cfg(&alpha);
-    let t = std::time::Instant::now();
-    for _ in 0..20 { let _ = World::new(&cfg); }
-    println!("World::new {:?}", t.elapsed() / 20);
-    let w = World::new(&cfg);
-    let t = std::time::Instant::now();
-    for _ in 0..100 { let _ = w.project(); }
-    println!("project {:?}", t.elapsed() / 100);
-    let p = w.project();
-    let t = std::time::Instant::now();
-    for _ in 0..100 { let _ = w.key(&p); }
-    println!("key {:?}", t.elapsed() / 100);
-    let t = std::time::Instant::now();
-    for _ in 0..100 { let _ = w.snap(); }
-    println!("snap {:?}", t.elapsed() / 100);
-    let s = w.snap();
-    let t = std::time::Instant::now();
-    for _ in 0..100 { w.restore(&s); }
-    println!("restore {:?}", t.elapsed() / 100);
-    let t = std::time::Instant::now();
-    for _ in 0..20 { let _ = w.restart(); }
-    println!("restart {:?}", t.elapsed() / 20);
-    let r = json!({"op": "ValidateHolder", "ch": "c1", "c": []});
-    let t = std::time::Instant::now();
-    for _ in 0..100 { w.apply(&r); }
-    println!("validate {:?}", t.elapsed() / 100);
-    let r = json!({"op": "SignCp", "ch": "c1", "c": []});
-    let t = std::time::Instant::now();
-    for _ in 0..100 { w.apply(&r); }
-    println!("signcp {:?}", t.elapsed() / 100);
-    let t = std::time::Instant::now();
-    for _ in 0..100 { let _ = w.fx.store.get_nodes(); }
-    println!("get_nodes {:?}", t.elapsed() / 100);
-    let t = std::time::Instant::now();
-    for _ in 0..100 { let _ = w.estate(&w.ccs[0].channel_id); }
-    println!("estate clone {:?}", t.elapsed() / 100);
-}
-
 fn main() {
     quiet_panics();
     match std::env::args().nth(1).unwrap_or_default().as_str() {
         "explore" => explore(),
         "run" => run_seqs(),
-        "bench" => bench(),
         _ => {
             eprintln!("usage: payments explore|run ...");
             std::process::exit(2);
